@@ -63,9 +63,9 @@ def lean_gate(prop, tier):
         return out
     txt1 = re.sub(r"\s+", " ", txt)
     got = {}
-    for m in re.finditer(r"'([^']+)' depends on axioms: \[([^\]]*)\]", txt1):
+    for m in re.finditer(r"'(\S+)' depends on axioms: \[([^\]]*)\]", txt1):
         got[m.group(1)] = set(x.strip() for x in m.group(2).split(",") if x.strip())
-    for m in re.finditer(r"'([^']+)' does not depend on any axioms", txt1):
+    for m in re.finditer(r"'(\S+)' does not depend on any axioms", txt1):
         got[m.group(1)] = set()
     for name in want:
         full = [k for k in got if k == name or k.endswith("." + name)]
@@ -91,6 +91,38 @@ def lean_gate(prop, tier):
                 out["ok"] = False
                 out["problems"].append("leanchecker failed: " + c.stdout.decode()[-800:])
     return out
+
+
+def run_shard(args):
+    """one shard of a thorough run, in its own process"""
+    prop, tier, seed, shard, nshards = args
+    import core
+    import props
+    res = core.Result(prop, tier, seed + 1000003 * shard)
+    res.shard, res.nshards = shard, nshards
+    if shard == 0:
+        props.run_corpus(prop, res)
+    props.CHECKS[prop](res)
+    return dict(evaluations=res.evaluations, nontrivial=list(res.nontrivial), samples=res.samples, hist=res.hist,
+                failures=res.failures, traces=res.traces, notes=res.notes, rule=res.rule)
+
+
+def run_thorough(prop, tier, seed, res):
+    import multiprocessing as mp
+    n = int(os.environ.get("VERIF_WORKERS", "14"))
+    with mp.Pool(n) as pool:
+        outs = pool.map(run_shard, [(prop, tier, seed, k, n) for k in range(n)])
+    for o in outs:
+        res.evaluations += o["evaluations"]
+        res.nontrivial.update(o["nontrivial"])
+        if len(res.samples) < 3:
+            res.samples += o["samples"][:1]
+        for k, v in o["hist"].items():
+            res.hist[k] = res.hist.get(k, 0) + v
+        res.failures += o["failures"]
+        res.traces += o["traces"]
+        res.rule = o["rule"] or res.rule
+    res.notes.append("thorough tier: %d worker processes, each with its own derived seed and its shard of the exhaustive enumerations" % n)
 
 
 def load_known():
@@ -121,6 +153,8 @@ def main():
         res = core.Result(prop, tier, seed)
         if args.replay:
             props.replay(prop, res, args.replay)
+        elif tier == "thorough":
+            run_thorough(prop, tier, seed, res)
         else:
             props.run_corpus(prop, res)
             props.CHECKS[prop](res)
